@@ -50,6 +50,7 @@ func c16Row(cr c16Crop, table int) string {
 	rainav, rainact := " 9.0", " 2.0"
 	irr1, irr2, irrlow, irrdep, irrmax := "2", "5", " 60", " 60", " 30"
 	nd1, nd2, nd3, st1, st2, st3 := "120", " 60", "  0", "S0 ", "S3 ", "0  "
+	taccu := "100"
 	day := func(ddmm string, d int) string {
 		t, _ := time.Parse("02012006", ddmm+"2002")
 		return t.AddDate(0, 0, d).Format("0201")
@@ -68,6 +69,8 @@ func c16Row(cr c16Crop, table int) string {
 	case 4: // irrigation in one stage only, small daily maximum, irrigate when below 95 % of capacity
 		irr1, irr2, irrlow, irrmax = "3", "3", " 95", "  8"
 		nd1, nd2, nd3, st1, st2, st3 = "250", "250", "250", "S0 ", "S2 ", "S4 "
+	case 6: // temperature sum for sowing that is never reached: sowing is forced on the last day of the window
+		taccu = "999"
 	case 5: // wide irrigation window, large maximum, sowing below a maximum temperature (x flag), N by day of year
 		irr1, irr2, irrlow, irrmax = "1", "6", " 80", " 60"
 		tsmin, flag = " 18.0", "x"
@@ -85,7 +88,7 @@ func c16Row(cr c16Crop, table int) string {
 	put(46, hmomax)
 	put(53, rainav)
 	put(60, rainact)
-	put(68, "100")
+	put(68, taccu)
 	put(74, " 0")
 	put(80, irr1)
 	put(87, irr2)
@@ -112,7 +115,7 @@ func c16Specs(tier string, seed int) []c16Spec {
 		alpha, d = []string{"season", "cold", "hot-drought", "waterlogged"}, 4
 	}
 	for r := range c16Rots {
-		for t := 0; t <= 5; t++ {
+		for t := 0; t <= 6; t++ {
 			for sw := 0; sw < 16; sw++ {
 				out = append(out, c16Spec{Rot: r, Table: t, Switch: sw, Alpha: alpha, D: d})
 			}
@@ -127,12 +130,12 @@ func init() {
 		Technique: "explicit-state bounded exploration of whole rotations on the real run loop: every word of 30-day weather blocks over the first sowing window and season x 3 rotations x 6 automatic-management tables x all 16 combinations of the four automation switches; sowing/harvest/irrigation/fertilisation events and the crop records compared with the rotation and the table's windows",
 		Rule: "scenario = (rotation of 2-3 shipped crops whose sowing windows open after the preceding crop's latest harvest, table variant, switch combination) with all block words; crop records: one per rotation entry, in order, with the entry's crop code and harvest year; switches off: sowing and harvest events on the rotation dates; automatic sowing: inside [Sow1, Sow2] of the entry's year and after the previous harvest; automatic harvest: not after the latest harvest date; automatic irrigation: stage within [Irrdv1, Irrdv2] and amount <= irrmax on every irrigated day; automatic N: every amount >= 0; " +
 			"state = (day, stage, event); non-trivial = run in which at least one automatic decision was taken",
-		Assumptions: []string{"tables: base, narrow window with unsatisfiable moisture conditions, no windows (rotation dates), latest harvest 5 days after the sowing window, one-stage irrigation with small maximum, wide irrigation with maximum-temperature sowing", "the sowing window and latest harvest date belong to the year of the rotation entry's sowing and harvest date"},
+		Assumptions: []string{"tables: base, narrow window with unsatisfiable moisture conditions, no windows (rotation dates), latest harvest 5 days after the sowing window, one-stage irrigation with small maximum, wide irrigation with maximum-temperature sowing, temperature sum for sowing never reached", "the sowing window and latest harvest date belong to the year of the rotation entry's sowing and harvest date"},
 		Bound: func(t string) string {
 			if t == "quick" {
-				return "4 rotations x 6 tables x 16 switch combinations x 3^3 block words"
+				return "4 rotations x 7 tables x 16 switch combinations x 3^3 block words"
 			}
-			return "4 rotations x 6 tables x 16 switch combinations x 4^4 block words"
+			return "4 rotations x 7 tables x 16 switch combinations x 4^4 block words"
 		},
 		Budget: func(t string) time.Duration {
 			if t == "quick" {
